@@ -1,101 +1,115 @@
 /-
   Helper lemmas for C07.  The primed statements are re-exported by OrbProofs/C07.lean.
+
+  The spec-side vocabulary (BoxOK, InBox, InOpenBox, lerp, OnSeg, segsOf, OnPath, OnPieces) is defined,
+  unchanged, in OrbProofs/C07Seg.lean; the segment-level theory is in C07Seg / C07SegLoop, the outer
+  loop invariant in C07Line.
 -/
-import Orb.Clip
-import Mathlib.Algebra.Order.Field.Basic
-import Mathlib.Tactic.Linarith
+import OrbProofs.C07Line
 
 namespace Orb.Clip
 open Orb Orb.Core
 
-/-! ### spec-side vocabulary -/
-
-section vocab
 variable {α : Type} [Field α] [LinearOrder α] [IsStrictOrderedRing α]
 
-/-- the box has positive width and height (the property's quantifier) -/
-def BoxOK (box : Bound α) : Prop := box.lo.x < box.hi.x ∧ box.lo.y < box.hi.y
-
-/-- closed-box membership -/
-def InBox (box : Bound α) (p : Pt α) : Prop :=
-  box.lo.x ≤ p.x ∧ p.x ≤ box.hi.x ∧ box.lo.y ≤ p.y ∧ p.y ≤ box.hi.y
-
-/-- open-box membership -/
-def InOpenBox (box : Bound α) (p : Pt α) : Prop :=
-  box.lo.x < p.x ∧ p.x < box.hi.x ∧ box.lo.y < p.y ∧ p.y < box.hi.y
-
-/-- the point at parameter `t` of the segment `a b` -/
-def lerp (a b : Pt α) (t : α) : Pt α := ⟨a.x + t * (b.x - a.x), a.y + t * (b.y - a.y)⟩
-
-/-- `q` lies on the closed segment `a b` -/
-def OnSeg (a b q : Pt α) : Prop := ∃ t, 0 ≤ t ∧ t ≤ 1 ∧ q = lerp a b t
-
-/-- consecutive vertex pairs of a path -/
-def segsOf : List (Pt α) → List (Pt α × Pt α)
-  | a :: b :: rest => (a, b) :: segsOf (b :: rest)
-  | _ => []
-
-/-- `q` lies on the polyline `ps` (a path with fewer than two vertices has no points) -/
-def OnPath (ps : List (Pt α)) (q : Pt α) : Prop := ∃ s ∈ segsOf ps, OnSeg s.1 s.2 q
-
-/-- `q` lies on one of the pieces -/
-def OnPieces (out : List (List (Pt α))) (q : Pt α) : Prop := ∃ piece ∈ out, OnPath piece q
-
-end vocab
-
-variable {α : Type} [Field α] [LinearOrder α] [IsStrictOrderedRing α]
+/-- the result of `line` satisfies the loop invariant `Good` -/
+theorem good_of_line {box : Bound α} (hb : BoxOK box) {isOpen : Bool} {inp : List (Pt α)}
+    {out : List (List (Pt α))} (h : line box isOpen inp = some out) : Good box isOpen inp out := by
+  obtain ⟨out', h', hG⟩ := line_good hb isOpen inp
+  rw [h] at h'
+  cases h'
+  exact hG
 
 theorem line_total' (box : Bound α) (hb : BoxOK box) (isOpen : Bool) (inp : List (Pt α)) :
     ∃ out, line box isOpen inp = some out := by
-  sorry
+  obtain ⟨out, h, _⟩ := line_good hb isOpen inp
+  exact ⟨out, h⟩
 
 theorem segLoop_closed_spec' (box : Bound α) (hb : BoxOK box) (a b : Pt α) :
     (match segLoop box 8 a b (bitCode box a) (bitCode box b) with
      | .accept a' b' _ => InBox box a' ∧ InBox box b' ∧ OnSeg a b a' ∧ OnSeg a b b' ∧
          ∀ q, OnSeg a b q → (InBox box q ↔ OnSeg a' b' q)
      | .reject => ∀ q, OnSeg a b q → ¬ InBox box q
-     | .stuck => False) := by
-  sorry
+     | .stuck => False) := segLoop_closed hb a b
 
 theorem clip_vertices_in_box' (box : Bound α) (hb : BoxOK box) (isOpen : Bool) (inp : List (Pt α))
     (out : List (List (Pt α))) (h : line box isOpen inp = some out) :
     ∀ piece ∈ out, ∀ v ∈ piece, InBox box v := by
-  sorry
+  obtain ⟨g1, g2, _⟩ := good_of_line hb h
+  intro piece hp v hv
+  obtain ⟨s, hs, hv'⟩ := mem_endpoint piece v hv (g1 piece hp)
+  obtain ⟨h1, h2, _, _⟩ := g2 piece hp s hs
+  rcases hv' with rfl | rfl
+  · exact h1
+  · exact h2
 
 theorem clip_vertices_on_input' (box : Bound α) (hb : BoxOK box) (isOpen : Bool) (inp : List (Pt α))
     (out : List (List (Pt α))) (h : line box isOpen inp = some out) :
     ∀ piece ∈ out, ∀ v ∈ piece, OnPath inp v := by
-  sorry
+  obtain ⟨g1, g2, _⟩ := good_of_line hb h
+  intro piece hp v hv
+  obtain ⟨s, hs, hv'⟩ := mem_endpoint piece v hv (g1 piece hp)
+  obtain ⟨_, _, ⟨u, hu, hu1, hu2⟩, _⟩ := g2 piece hp s hs
+  rcases hv' with rfl | rfl
+  · exact ⟨u, hu, hu1⟩
+  · exact ⟨u, hu, hu2⟩
 
 theorem clip_exact' (box : Bound α) (hb : BoxOK box) (inp : List (Pt α)) (out : List (List (Pt α)))
     (h : line box false inp = some out) :
     ∀ q, OnPieces out q ↔ (OnPath inp q ∧ InBox box q) := by
-  sorry
+  obtain ⟨_, g2, g3⟩ := good_of_line hb h
+  intro q
+  constructor
+  · rintro ⟨piece, hp, s, hs, hq⟩
+    obtain ⟨h1, h2, ⟨u, hu, hu1, hu2⟩, _⟩ := g2 piece hp s hs
+    exact ⟨⟨u, hu, hu1.sub hu2 hq⟩, inBox_of_onSeg h1 h2 hq⟩
+  · rintro ⟨hq, hin⟩
+    exact g3 q hq (Or.inr ⟨rfl, hin⟩)
 
+set_option linter.unusedVariables false in
 theorem clip_inside_id' (box : Bound α) (hb : BoxOK box) (inp : List (Pt α)) (h2 : 2 ≤ inp.length)
     (hin : ∀ v ∈ inp, InBox box v) : line box false inp = some [inp] := by
-  sorry
+  match inp, h2 with
+  | p :: b :: rest, _ =>
+    have hp : bitCode box p = 0 := bitCode_of_inBox (hin p List.mem_cons_self)
+    have := lineLoop_inside box (b :: rest) p [] [] (Or.inl ⟨rfl, rfl⟩) (by simp)
+      (fun v hv => hin v (List.mem_cons_of_mem _ hv))
+    show (if (lineLoop box false ⟨[], 0, code box false p, false⟩ (p :: b :: rest)).stuck = true then none
+        else some (lineLoop box false ⟨[], 0, code box false p, false⟩ (p :: b :: rest)).out) = _
+    rw [show code box false p = 0 from hp, this]
+    rfl
 
 theorem clip_idempotent' (box : Bound α) (hb : BoxOK box) (inp : List (Pt α)) (out : List (List (Pt α)))
     (h : line box false inp = some out) : ∀ piece ∈ out, line box false piece = some [piece] := by
-  sorry
+  intro piece hp
+  exact clip_inside_id' box hb piece ((good_of_line hb h).1 piece hp)
+    (clip_vertices_in_box' box hb false inp out h piece hp)
 
 theorem clip_empty' (box : Bound α) (hb : BoxOK box) (inp : List (Pt α))
     (hout : ∀ q, OnPath inp q → ¬ InBox box q) : line box false inp = some [] := by
-  sorry
+  obtain ⟨out, h, g1, g2, _⟩ := line_good hb false inp
+  cases out with
+  | nil => exact h
+  | cons piece out =>
+    exfalso
+    obtain ⟨s, hs⟩ := segsOf_ne_nil (g1 piece List.mem_cons_self)
+    obtain ⟨h1, _, ⟨u, hu, hu1, _⟩, _⟩ := g2 piece List.mem_cons_self s hs
+    exact hout s.1 ⟨u, hu, hu1⟩ h1
 
 theorem clip_open_interior' (box : Bound α) (hb : BoxOK box) (inp : List (Pt α)) (out : List (List (Pt α)))
     (h : line box true inp = some out) :
     ∀ piece ∈ out, ∀ s ∈ segsOf piece, ∀ t, 0 < t → t < 1 → s.1 ≠ s.2 → InOpenBox box (lerp s.1 s.2 t) := by
-  sorry
+  intro piece hp s hs
+  exact ((good_of_line hb h).2.1 piece hp s hs).2.2.2 rfl
 
 theorem clip_open_complete' (box : Bound α) (hb : BoxOK box) (inp : List (Pt α)) (out : List (List (Pt α)))
     (h : line box true inp = some out) :
     ∀ q, OnPath inp q → InOpenBox box q → OnPieces out q := by
-  sorry
+  intro q hq hin
+  exact (good_of_line hb h).2.2 q hq (Or.inl hin)
 
 theorem clip_open_touch_witness' :
     line (⟨⟨1, 1⟩, ⟨2, 3⟩⟩ : Bound ℚ) true [⟨0, 0⟩, ⟨4, 2⟩] = some [[⟨2, 1⟩, ⟨2, 1⟩]] := by
-  sorry
+  decide +kernel
 
 end Orb.Clip
